@@ -58,6 +58,7 @@ def from_model(b: Built, p, m):
         v["be"].append(y if used else -1)
     for c in b.cons:
         v["ap"].append(_bool(m, c._applied))
+    v["lv0"] = [_int(m, bf._buffer_levels[0]) for bf in b.buffers]
     return v
 
 
@@ -91,7 +92,25 @@ def match(b: Built, p, v):
     for c in range(len(b.cons)):
         if p["cons"][c]["optional"]:
             cs.append(applied_expr(b, c) == z3.BoolVal(bool(v["ap"][c])))
+    for i, bf in enumerate(b.buffers):
+        if not p["buffers"][i]["initial"]:
+            cs.append(bf._buffer_levels[0] == v["lv0"][i])
     return z3.And(cs) if cs else z3.BoolVal(True)
+
+
+def buffer_report(m, bf):
+    """(time, level after the accesses of that time) as the model has them, first occurrence of
+    each time kept -- the reading of Buffer._level_changes_time / _buffer_levels."""
+    times = [_int(m, x) for x in bf._level_changes_time]
+    levels = [_int(m, x) for x in bf._buffer_levels]
+    out, seen = [], set()
+    for t, l in zip(times, levels[1:]):
+        if t < 0:
+            continue  # "in the past": the library's way of saying that the access does not happen
+        if t not in seen:
+            seen.add(t)
+            out.append([t, l])
+    return out
 
 
 # ----------------------------------------------------------------------------------------
